@@ -150,4 +150,221 @@ theorem elMerged_spec (w rowLo rowHi hi lo : ℕ) (hw : 2^63 ≤ w) (hw' : w < 2
     have hU := narrow_core xHi xLo Y w hxlo hyub hw' (by rintro ⟨a, _⟩; exact h511 a)
     refine finish Y (Nat.le_refl _) hxlo (by omega) hU
 
+/-! ## from the 128-bit approximation to the rounded result -/
+
+theorem pack_bits (E m : ℕ) (neg : Bool) (hE : E < 2047) (hm : 2 ^ 52 ≤ m) (hm' : m < 2 ^ 53) :
+    ((E * 2 ^ 52) % 18446744073709551616 ||| (m % 2 ^ 52) ||| signBit neg) = signBit neg + E * 2 ^ 52 + (m - 2 ^ 52) := by
+  have h1 : (E * 2 ^ 52) % 18446744073709551616 = E * 2 ^ 52 := by
+    apply Nat.mod_eq_of_lt; omega
+  have h2 : m % 2 ^ 52 = m - 2 ^ 52 := by omega
+  have h3 : m - 2 ^ 52 < 2 ^ 52 := by omega
+  rw [h1, h2]
+  have h4 : E * 2 ^ 52 ||| (m - 2 ^ 52) = E * 2 ^ 52 + (m - 2 ^ 52) := by
+    rw [← Nat.shiftLeft_eq, ← Nat.shiftLeft_add_eq_or_of_lt h3]
+  rw [h4]
+  cases neg with
+  | false => simp [signBit]
+  | true =>
+    have h5 : E * 2 ^ 52 + (m - 2 ^ 52) < 2 ^ 63 := by omega
+    have : signBit true = 1 <<< 63 := by simp [signBit, Nat.shiftLeft_eq]
+    rw [this, Nat.or_comm, ← Nat.shiftLeft_add_eq_or_of_lt h5]
+    omega
+
+/-- the biased exponent the code ends up with, as an integer -/
+theorem exp_arith (t : ℤ) (msb carry r : ℕ) (hm : msb = 0 ∨ msb = 1) (hc : carry = 0 ∨ carry = 1)
+    (ht : -1099511627776 < t) (ht' : t < 1099511627776)
+    (hr : r = if carry = 1 then ((((t % 18446744073709551616).toNat + 18446744073709551616 - (1 - msb)) % 18446744073709551616) + 1) % 18446744073709551616
+              else ((t % 18446744073709551616).toNat + 18446744073709551616 - (1 - msb)) % 18446744073709551616)
+    (hchk : ¬ (r + 18446744073709551616 - 1) % 18446744073709551616 ≥ 2046) :
+    (r : ℤ) = t - 1 + msb + carry ∧ 1 ≤ r ∧ r ≤ 2046 := by
+  rcases hm with rfl | rfl <;> rcases hc with rfl | rfl <;> simp only [if_true, if_false, Nat.one_ne_zero, Nat.zero_ne_one] at hr <;> omega
+
+theorem xor_msb (msb : ℕ) (h : msb = 0 ∨ msb = 1) : 1 ^^^ msb = 1 - msb := by
+  rcases h with rfl | rfl <;> rfl
+
+/-- the 54-bit quotient `R` of the value at exponent `E1` -/
+theorem el_R (n d : ℕ) (hi lo : ℕ) (t : ℤ) (hhi : 4611686018427387904 ≤ hi) (hhi' : hi < 18446744073709551616)
+    (hmsb : hi / 2 ^ 63 = 0 ∨ hi / 2 ^ 63 = 1)
+    (hQ : IsQ ((n : ℚ) / d) (t - 1077) (hi / 512))
+    (hTie : (n : ℚ) / d = ((hi / 512 : ℕ) : ℚ) * 2 ^ (t - 1077) → lo = 0 ∧ hi % 512 = 0) :
+    ∃ (R : ℕ) (E1 : ℤ), hi >>> (hi / 2 ^ 63 + 9) = R ∧ 2 ^ 53 ≤ R ∧ R < 2 ^ 54 ∧
+      E1 = t - 1077 + (hi / 2 ^ 63 : ℕ) ∧ IsQ ((n : ℚ) / d) E1 R ∧
+      ((n : ℚ) / d = (R : ℚ) * 2 ^ E1 → lo = 0 ∧ hi % 512 = 0) := by
+    rcases hmsb with h0 | h1
+    · refine ⟨hi / 512, t - 1077, ?_, ?_, ?_, ?_, hQ, hTie⟩
+      · rw [h0, Nat.shiftRight_eq_div_pow]
+      · simp only [Nat.reducePow] at h0 ⊢; omega
+      · simp only [Nat.reducePow] at h0 ⊢; omega
+      · rw [h0]; simp
+    · have hq2 : IsQ ((n : ℚ) / d) (t - 1077 + 1) (hi / 512 / 2) := isQ_halve hQ
+      have hdiv : hi / 512 / 2 = hi / 1024 := by omega
+      refine ⟨hi / 1024, t - 1077 + 1, ?_, ?_, ?_, ?_, by rw [← hdiv]; exact hq2, ?_⟩
+      · rw [h1, Nat.shiftRight_eq_div_pow]
+      · simp only [Nat.reducePow] at h1 ⊢; omega
+      · simp only [Nat.reducePow] at h1 ⊢; omega
+      · rw [h1]; simp
+      · intro hex
+        apply hTie
+        -- hi / 512 = 2 * (hi / 1024) + b, and the value is at least (hi/512)·2^E0
+        have hp := two_zpow_pos (t - 1077)
+        have hc2 := cast_div_two (hi / 512)
+        rw [hdiv] at hc2
+        have hb0 : (0 : ℚ) ≤ ((hi / 512 % 2 : ℕ) : ℚ) := by positivity
+        rw [two_zpow_succ] at hex
+        have hle : ((hi / 512 : ℕ) : ℚ) * 2 ^ (t - 1077) ≤ ((hi / 1024 : ℕ) : ℚ) * (2 * 2 ^ (t - 1077)) := by
+          rw [← hex]; exact hQ.1
+        have hb : ((hi / 512 % 2 : ℕ) : ℚ) * 2 ^ (t - 1077) ≤ 0 := by
+          have : ((hi / 512 : ℕ) : ℚ) * 2 ^ (t - 1077) =
+              ((hi / 1024 : ℕ) : ℚ) * (2 * 2 ^ (t - 1077)) + ((hi / 512 % 2 : ℕ) : ℚ) * 2 ^ (t - 1077) := by
+            rw [hc2]; ring
+          linarith
+        have hb' : ((hi / 512 % 2 : ℕ) : ℚ) = 0 := by
+          have := mul_nonneg hb0 hp.le
+          have h0 : ((hi / 512 % 2 : ℕ) : ℚ) * 2 ^ (t - 1077) = 0 := le_antisymm hb this
+          rcases mul_eq_zero.mp h0 with h | h
+          · exact h
+          · exact absurd h hp.ne'
+        rw [hex, hc2, hb']; ring
+
+set_option maxRecDepth 100000 in
+/-- rounding `R` to 53 bits and packing -/
+theorem el_round (neg : Bool) (n d : ℕ) (hn : n ≠ 0) (hd : d ≠ 0) (hi lo : ℕ) (t : ℤ) (bits : ℕ)
+    (ht : -1099511627776 < t) (ht' : t < 1099511627776)
+    (hmsb : hi / 2 ^ 63 = 0 ∨ hi / 2 ^ 63 = 1)
+    (R : ℕ) (E1 : ℤ) (hR : hi >>> (hi / 2 ^ 63 + 9) = R) (hRlo : 2 ^ 53 ≤ R) (hRhi : R < 2 ^ 54)
+    (hE1 : E1 = t - 1077 + (hi / 2 ^ 63 : ℕ)) (hQR : IsQ ((n : ℚ) / d) E1 R)
+    (hexR : (n : ℚ) / d = (R : ℚ) * 2 ^ E1 → lo = 0 ∧ hi % 512 = 0)
+    (h : elFinish hi lo (t % (two64 : ℤ)).toNat neg = some bits) :
+    roundRat neg n d = (bits, false) := by
+  -- 53 bits and the comparison with one half
+  have hQM : IsQ ((n : ℚ) / d) (E1 + 1) (R / 2) := isQ_halve hQR
+  have hCM := isC_halve hQR
+  have hM52 : 2 ^ 52 ≤ R / 2 := by simp only [Nat.reducePow] at hRlo ⊢; omega
+  have hM53 : R / 2 < 2 ^ 53 := by simp only [Nat.reducePow] at hRhi ⊢; omega
+  -- unfold the code
+  simp only [elFinish, hR, xor_msb _ hmsb] at h
+  by_cases hbail : (lo == 0 && hi % 512 == 0 && R % 4 == 1) = true
+  · rw [hbail] at h; simp only [if_true] at h; cases h
+  · simp only [hbail, Bool.false_eq_true, if_false] at h
+    have hnb : ¬ (lo = 0 ∧ hi % 512 = 0 ∧ R % 4 = 1) := by
+      rintro ⟨a, b, c⟩
+      apply hbail
+      rw [beq_iff_eq.mpr a, beq_iff_eq.mpr b, beq_iff_eq.mpr c]; rfl
+    -- the rounded mantissa
+    have hround : roundHalfEven (R / 2)
+        (if R % 2 = 0 then (if (n : ℚ) / d = (R : ℚ) * 2 ^ E1 then 0 else 1) else (if (n : ℚ) / d = (R : ℚ) * 2 ^ E1 then 2 else 3)) =
+        (R + R % 2) / 2 := by
+      by_cases hb : R % 2 = 0
+      · simp only [hb, if_true]
+        have : (R + 0) / 2 = R / 2 := by simp
+        rw [this]
+        by_cases hex : (n : ℚ) / d = (R : ℚ) * 2 ^ E1 <;> simp [hex, roundHalfEven]
+      · have hb1 : R % 2 = 1 := by omega
+        simp only [hb, if_false, hb1]
+        have hM1 : (R + 1) / 2 = R / 2 + 1 := by omega
+        rw [hM1]
+        by_cases hex : (n : ℚ) / d = (R : ℚ) * 2 ^ E1
+        · simp only [hex, if_true]
+          obtain ⟨a, b⟩ := hexR hex
+          have h4 : R % 4 = 3 := by
+            have : R % 4 ≠ 1 := fun c => hnb ⟨a, b, c⟩
+            omega
+          have hodd : R / 2 % 2 = 1 := by omega
+          simp [roundHalfEven, hodd]
+        · simp [hex, roundHalfEven]
+    generalize hM' : (R + R % 2) / 2 = M' at h hround
+    have hM'lo : 2 ^ 52 ≤ M' := by simp only [Nat.reducePow] at hRlo ⊢; omega
+    have hM'hi : M' ≤ 2 ^ 53 := by simp only [Nat.reducePow] at hRhi ⊢; omega
+    -- the exponent check
+    by_cases hcarry : M' / 2 ^ 53 > 0
+    · have hMeq : M' = 2 ^ 53 := by simp only [Nat.reducePow] at hcarry hM'hi ⊢; omega
+      simp only [hcarry, if_true] at h
+      split at h
+      · cases h
+      · next hchk =>
+        injection h with h
+        simp only [two64, Nat.cast_ofNat] at h hchk
+        generalize hr : ((((t % 18446744073709551616).toNat + 18446744073709551616 - (1 - hi / 2 ^ 63)) % 18446744073709551616 + 1) % 18446744073709551616 : ℕ) = r at h hchk
+        obtain ⟨hb1, hb2, hb3⟩ := exp_arith t (hi / 2 ^ 63) 1 r hmsb (.inr rfl) ht ht'
+          (by simp only [if_true]; exact hr.symm) hchk
+        clear hr hchk
+        have hbiased : E1 + 1 + 1 + 1075 = (r : ℤ) := by rw [hb1, hE1]; push_cast; ring
+        by_cases hsub : E1 + 1 = -1075
+        · -- just below the smallest normal number
+          have hr1 : r = 1 := by
+            have : (r : ℤ) = 1 := by rw [← hbiased, hsub]; norm_num
+            exact_mod_cast this
+          have hRv : R = 18014398509481983 := by simp only [Nat.reducePow] at hM' hMeq hRhi; omega
+          have hMv : R / 2 = 2 ^ 53 - 1 := by rw [hRv]; norm_num
+          rw [hMv, hsub] at hQM
+          have hne : (n : ℚ) / d ≠ ((2 ^ 53 - 1 : ℕ) : ℚ) * 2 ^ (-1075 : ℤ) := by
+            -- the value is at least R·2^E1 = (2M+1)·2^(e-1) > M·2^e
+            have hp := two_zpow_pos E1
+            have h1 := hQR.1
+            have hE : (2 : ℚ) ^ (-1075 : ℤ) = 2 * 2 ^ E1 := by rw [← hsub, two_zpow_succ]
+            rw [hE]
+            have hRq : (R : ℚ) = 18014398509481983 := by rw [hRv]; norm_num
+            have hMq : ((2 ^ 53 - 1 : ℕ) : ℚ) = 9007199254740991 := by norm_num
+            rw [hRq] at h1
+            rw [hMq]
+            intro hcontra
+            rw [hcontra] at h1
+            linarith
+          rw [roundRat_min_normal neg n d hn hd hQM hne, ← h, hr1, hMeq,
+            pack_bits 1 (2 ^ 53 / 2) neg (by norm_num) (by norm_num) (by norm_num)]
+          norm_num
+        · have he : -1074 ≤ E1 + 1 := by
+            have : (1 : ℤ) ≤ (r : ℤ) := by exact_mod_cast hb2
+            omega
+          rw [roundRat_of_isQ neg n d hn hd (E1 + 1) he _ _ hQM hCM hM52 hM53]
+          simp only [roundAt, hround, hMeq, beq_self_eq_true, if_true]
+          rw [← h, hbiased]
+          have hlt : ¬ ((r : ℤ) ≥ 2047) := by
+            have : (r : ℤ) ≤ 2046 := by exact_mod_cast hb3
+            linarith
+          have hnl : ¬ (2 ^ 52 < 2 ^ 52) := Nat.lt_irrefl _
+          rw [if_neg hnl, if_neg hlt, Int.toNat_natCast]
+          rw [hMeq, pack_bits r (2 ^ 53 / 2) neg (by omega) (by norm_num) (by norm_num)]
+          norm_num
+    · have hMlt : M' < 2 ^ 53 := by simp only [Nat.reducePow] at hcarry hM'hi ⊢; omega
+      simp only [hcarry, if_false] at h
+      split at h
+      · cases h
+      · next hchk =>
+        injection h with h
+        simp only [two64, Nat.cast_ofNat] at h hchk
+        generalize hr : (((t % 18446744073709551616).toNat + 18446744073709551616 - (1 - hi / 2 ^ 63)) % 18446744073709551616 : ℕ) = r at h hchk
+        obtain ⟨hb1, hb2, hb3⟩ := exp_arith t (hi / 2 ^ 63) 0 r hmsb (.inl rfl) ht ht'
+          (by simp only [Nat.zero_ne_one, if_false]; exact hr.symm) hchk
+        clear hr hchk
+        have hbiased : E1 + 1 + 1075 = (r : ℤ) := by rw [hb1, hE1]; push_cast; ring
+        have he : -1074 ≤ E1 + 1 := by
+          have : (1 : ℤ) ≤ (r : ℤ) := by exact_mod_cast hb2
+          linarith
+        rw [roundRat_of_isQ neg n d hn hd (E1 + 1) he _ _ hQM hCM hM52 hM53]
+        have hne53 : (M' == 2 ^ 53) = false := beq_eq_false_iff_ne.mpr (Nat.ne_of_lt hMlt)
+        simp only [roundAt, hround, hne53, Bool.false_eq_true, if_false]
+        rw [← h, hbiased]
+        have hlt : ¬ ((r : ℤ) ≥ 2047) := by
+          have : (r : ℤ) ≤ 2046 := by exact_mod_cast hb3
+          linarith
+        have hnl : ¬ (M' < 2 ^ 52) := Nat.not_lt.mpr hM'lo
+        rw [if_neg hnl, if_neg hlt, Int.toNat_natCast]
+        rw [pack_bits r M' neg (by omega) hM'lo hMlt]
+
+/-- **rounding of the 128-bit approximation**: `t` is the integer `⌊217706·q / 65536⌋ + 1087 - clz`; the quotient
+    `hi / 512` is exact at exponent `t - 1077`, and an exactly representable value shows in the low bits -/
+theorem elFinish_correct (neg : Bool) (n d : ℕ) (hn : n ≠ 0) (hd : d ≠ 0) (hi lo : ℕ) (t : ℤ) (bits : ℕ)
+    (hhi : 2 ^ 62 ≤ hi) (hhi' : hi < 2 ^ 64)
+    (ht : -1099511627776 < t) (ht' : t < 1099511627776)
+    (hQ : IsQ ((n : ℚ) / d) (t - 1077) (hi / 512))
+    (hTie : (n : ℚ) / d = ((hi / 512 : ℕ) : ℚ) * 2 ^ (t - 1077) → lo = 0 ∧ hi % 512 = 0)
+    (h : elFinish hi lo (t % (two64 : ℤ)).toNat neg = some bits) :
+    roundRat neg n d = (bits, false) := by
+  simp only [Nat.reducePow] at hhi hhi'
+  have hmsb : hi / 2 ^ 63 = 0 ∨ hi / 2 ^ 63 = 1 := by
+    simp only [Nat.reducePow]; omega
+  obtain ⟨R, E1, hR, hRlo, hRhi, hE1, hQR, hexR⟩ := el_R n d hi lo t hhi hhi' hmsb hQ hTie
+  exact el_round neg n d hn hd hi lo t bits ht ht' hmsb R E1 hR hRlo hRhi hE1 hQR hexR h
+
 end RJson.EL
